@@ -112,7 +112,9 @@ func VerifH01cServerEntry() {
 		verifrt.Assert(w.status == 200, "site-response")
 		if site.path == "/" {
 			verifrt.Assert(seenPath == path, "path-unchanged-for-root-site")
-		} else if rawPath == "" {
+		} else if rawPath == "" && !strings.Contains(path, "//") {
+			// (beyond the statement: what the handler sees. Left out for doubled slashes, where the
+			// remainder "//x" is re-parsed as a URL and loses what looks like an authority)
 			trimmed := strings.TrimPrefix(path, site.path)
 			if !strings.HasPrefix(trimmed, "/") {
 				trimmed = "/" + trimmed
